@@ -373,6 +373,45 @@ def self_indexed_wrap(chk):
     chk.floor('self-indexed buffers with a wrap test', n, 1)
 
 
+def modpow_window_room(chk):
+    """br_iXX_modpow_opt() carves its window table out of the caller's work area: a window of k bits uses 2^k table slots plus the
+    running value, i.e. (2^k + 1) integers of mwlen words (the table is indexed 1 .. 2^k - 1 after the two base temporaries; see the
+    comment in the source).  The window size is chosen by comparing that requirement with twlen; an under-estimate writes the
+    last slot past the work area - on the stack of br_rsa_iXX_public / _private, with a modulus size chosen by whoever supplies the
+    key.  Symbolic form of the guard in both word-size variants: (2^win_len + 1) * mwlen <= twlen, and 2 * mwlen for the 1-bit case."""
+    from .. import sym
+    R = 'modpow-window-fits-work-area'
+    for w in (15, 31):
+        src, fn = 'src/int/i%d_modpow2.c' % w, 'br_i%d_modpow_opt' % w
+        u = build.load_unit(src)
+        F = next((irf.Func(u, f) for f in u['functions'] if f['name'] == fn and f.get('blocks')), None)
+        if F is None:
+            raise AnalysisBroken('%s vanished' % fn)
+        S = sym.Sym(F, leaf_vars=('win_len', 'mwlen', 'twlen'))
+        tw, mw, wl = S.atom(('var', 'twlen')), ('var', 'mwlen'), S.atom(('var', 'win_len'))
+        one = S.aff({}, 1)
+        want_win = S.atom(('op', 'mul') + tuple(sorted((sym.add_const(S.atom(('op', 'shl', one, wl)), 1), S.atom(mw)), key=repr)))
+        want_min = S.aff({mw: 2})
+        found = {'win': None, 'min': None}
+        for i in F.insts.values():
+            if i['op'] != 'icmp':
+                continue
+            a, b = S.sym(i['ops'][0]), S.sym(i['ops'][1])
+            if i['pred'] == 'ule' and b == tw and a[0] == 'aff' and any(k[0] == 'op' and k[1] == 'mul' for k, v in a[1]):
+                found['win'] = (a, i)
+            elif i['pred'] == 'ult' and a == tw:
+                found['min'] = (b, i)
+        for k, want, what in (('win', want_win, '(2^win_len + 1) * mwlen <= twlen selects the window'), ('min', want_min, 'twlen < 2 * mwlen is refused')):
+            inst = '%s: %s' % (fn, what)
+            if found[k] is None:
+                chk.violation(R, inst, src, 'no such comparison with twlen found', key='%s %d %s none' % (R, w, k))
+            elif found[k][0] == want:
+                chk.ok(R, inst, F.where(found[k][1]))
+            else:
+                chk.violation(R, inst, F.where(found[k][1]), 'the work-area requirement compared with twlen is %s: the window table can be written past the work area'
+                              % sym.show(found[k][0]), key='%s %d %s' % (R, w, k))
+
+
 def run(tier):
     chk = report.Check('C05', tier,
                        'Static bounds for the T0 virtual machines that parse all untrusted input (X.509, keys, PEM, both handshakes): '
@@ -410,6 +449,7 @@ def run(tier):
     status_accessors(chk)
     curve_id_range(chk)
     self_indexed_wrap(chk)
+    modpow_window_room(chk)
     from .. import bufcopy
     bufcopy.check(chk)
     chk.floor('interpreters', len(t0.INTERPRETERS), 7)
